@@ -271,3 +271,14 @@ Proof.
   - unfold mc_ok, I32_MAX. cbn. repeat split; try lia. constructor.
   - vm_compute. reflexivity.
 Qed.
+
+(** the ledger's write pass IS the model's write pass (the one the correspondence
+    run ties to the real converter), ghost fields erased *)
+Corollary ledger_pass_is_model_pass :
+  forall fuel mf l cw,
+    write_pass_from fuel cw mf (map erase l) =
+    match mpass fuel cw mf l with
+    | Some (l', cw', out) => Some (map erase l', cw', out)
+    | None => None
+    end.
+Proof. exact mpass_erases. Qed.
